@@ -229,7 +229,7 @@ func genLine(t *rapid.T) []byte {
 
 var combos = [][2]string{{"none", "none"}, {"none", "medium"}, {"medium", "none"}, {"medium", "medium"}, {"strict", "none"}, {"strict", "medium"}}
 
-func tableConfigFromText(t *rapid.T, legacy, m20lvl string, omitLegacy, omitM20 bool) table.TableConfig {
+func tableConfigFromText(t *rapid.T, legacy, m20lvl string, omitLegacy, omitM20 bool, order string) table.TableConfig {
 	var sb strings.Builder
 	sb.WriteString("instance = \"c02\"\nbad_metrics_max_age = \"1h\"\nspool_dir = \"/nonexistent-spool\"\n")
 	if !omitLegacy {
@@ -237,6 +237,9 @@ func tableConfigFromText(t *rapid.T, legacy, m20lvl string, omitLegacy, omitM20 
 	}
 	if !omitM20 {
 		fmt.Fprintf(&sb, "validation_level_m20 = %q\n", m20lvl)
+	}
+	if order != "" {
+		fmt.Fprintf(&sb, "validate_order = %s\n", order)
 	}
 	c := cfg.NewConfig()
 	if _, err := toml.Decode(sb.String(), &c); err != nil {
@@ -260,8 +263,12 @@ func TestPropValidity(t *testing.T) {
 		// the documented defaults are medium / medium: leaving the key out must mean that
 		omitL := legacy == "medium" && rapid.Bool().Draw(t, "omitLegacy")
 		omitM := m20lvl == "medium" && rapid.Bool().Draw(t, "omitM20")
+		// order validation on: validity must still be decided, counted and reported the same way.  Lines then carry
+		// per-case unique names and positive integer timestamps, so that no VALID line is rejected for its order.
+		order := rapid.SampledFrom([]string{"", "", "false", "true", "true"}).Draw(t, "validate_order")
+		ordered := order == "true"
 		tab := h.NewTable(false)
-		tab.VerifReset(tableConfigFromText(t, legacy, m20lvl, omitL, omitM))
+		tab.VerifReset(tableConfigFromText(t, legacy, m20lvl, omitL, omitM, order))
 		cap := h.NewCaptureRoute("cap", matcher.Matcher{})
 		am, _ := matcher.New("", "", "", "", "(?s).*", "")
 		aggOut := make(chan []byte, 1000)
@@ -285,6 +292,9 @@ func TestPropValidity(t *testing.T) {
 		var lines []string
 		for i := 0; i < n; i++ {
 			line := genLine(t)
+			if ordered {
+				line = orderSafe(line, caseNo, i)
+			}
 			lines = append(lines, string(line))
 			ok, name, nameOK := refValid(line, legacy, m20lvl)
 			// self-validation of the reference against the validation library (a disagreement is a harness error)
@@ -317,7 +327,7 @@ func TestPropValidity(t *testing.T) {
 		}
 		h.AggBarrier(agg)
 		d := h.ReadTableCounters().Sub(c0)
-		ctx := fmt.Sprintf("levels legacy=%s(omitted=%v) m20=%s(omitted=%v) lines=%q", legacy, omitL, m20lvl, omitM, lines)
+		ctx := fmt.Sprintf("levels legacy=%s(omitted=%v) m20=%s(omitted=%v) validate_order=%q lines=%q", legacy, omitL, m20lvl, omitM, order, lines)
 		if int(d.In) != n {
 			t.Fatalf("inbound counter moved by %d for %d lines; %s", d.In, n, ctx)
 		}
@@ -368,7 +378,7 @@ func TestPropValidity(t *testing.T) {
 				time.Sleep(100 * time.Microsecond)
 			}
 		}
-		rec.Case(ctx, nt, "legacy="+legacy, "m20="+m20lvl, fmt.Sprintf("omitted-key=%v", omitL || omitM), fmt.Sprintf("invalid>0=%v", nInvalid > 0), fmt.Sprintf("valid>0=%v", len(wantFwd) > 0))
+		rec.Case(ctx, nt, "legacy="+legacy, "m20="+m20lvl, "validate_order="+order, fmt.Sprintf("omitted-key=%v", omitL || omitM), fmt.Sprintf("invalid>0=%v", nInvalid > 0), fmt.Sprintf("valid>0=%v", len(wantFwd) > 0))
 		rec.Num("lines", int64(n))
 	})
 }
@@ -423,4 +433,33 @@ func FuzzDispatchValidity(f *testing.F) {
 			t.Fatalf("line %q at %v: forwarded=%v reference valid=%v counters %+v", line, c, fwd, ok, d)
 		}
 	})
+}
+
+// orderSafe rewrites a generated line for runs with order validation on: a three-field line gets a name suffix
+// that is unique in this process (legacy names only; metrics2.0 names get a unique extra tag value) and, when its
+// timestamp token is numeric, the token "1500000000" + a per-line offset, so a valid line can never be "not newer".
+func orderSafe(line []byte, caseNo, i int) []byte {
+	f := refFields(line)
+	if len(f) != 3 {
+		return line
+	}
+	uniq := fmt.Sprintf("u%dx%d", caseNo, i)
+	name := string(f[0])
+	switch refVersion(bytes.TrimPrefix(f[0], []byte("."))) {
+	case "legacy":
+		if j := strings.IndexByte(name, ';'); j >= 0 {
+			name = name[:j] + "." + uniq + name[j:]
+		} else {
+			name += "." + uniq
+		}
+	case "m20":
+		name += ".uq=" + uniq
+	default:
+		name += ".uq_is_" + uniq
+	}
+	ts := string(f[2])
+	if _, err := strconv.ParseFloat(ts, 64); err == nil {
+		ts = strconv.Itoa(1500000000 + i)
+	}
+	return []byte(name + " " + string(f[1]) + " " + ts)
 }
